@@ -142,6 +142,10 @@ def handmade():
                  doc('<r><a ref="i5" refs="i6 i7 i3" tok="i4" toks="i4 i2" kind="i2" txt="i1"/><a id="i1" ref="i1"/><b ref="i7" id="i2"><a id="i3" refs="i1 i2"/></b><a ref="zz" tok="q"/><b id="i5"/><a id="i6" kind="zz"/></r>', prolog=DTD_T)))
     L.append(inp("dtd-doctype-node", ss('<xsl:template match="/"><out top="{count(/node())}" before="{count(/*/preceding-sibling::node())}" name="{name(/node()[last() - 1])}"/></xsl:template>'),
                  doc('<r><a id="a1"/></r>', prolog=DTD)))
+    # comments and a processing instruction on both sides of the document type declaration, and after the document element
+    L.append(inp("dtd-prolog-comments", ss('<xsl:template match="/"><out top="{count(/node())}" c="{count(/comment())}" p="{count(/processing-instruction())}" before="{count(/*/preceding-sibling::node())}" after="{count(/*/following-sibling::node())}">'
+                                           '<xsl:for-each select="/node()"><n k="{name()}" v="{.}" pos="{position()}"/></xsl:for-each></out></xsl:template>'),
+                 doc('<r><a id="a1"/></r><!-- end --><?last one?>', prolog='<!-- before --><?first pi?>\n' + DTD.rstrip("\n") + '<!-- after one --><?mid pi?><!-- after two -->\n')))
     # ---- attribute values with escapes; characters needing escapes in the output
     L.append(inp("attr-escapes", ss('<xsl:template match="/"><out><xsl:for-each select="//e/@*"><a n="{name()}" l="{string-length()}" v="{.}"/></xsl:for-each><t><xsl:value-of select="//t"/></t></out></xsl:template>'),
                  doc('<r><e a="x&#10;y&#9;z" b="&quot;q&quot; &amp; &lt;" c="  two  spaces  "/><t>line1&#13;line2\ttab &#160;nbsp</t></r>')))
